@@ -32,7 +32,22 @@ def run(repo, rep):
     rep.clause("C04-f", "block-dependency geometry is axis-consistent (role homogeneity)")
     rep.clause("C04-f'", "overlap predicates are at least as conservative as half-open interval overlap")
     rep.undecided("sufficiency of the chosen BLOCKDEP / wait counts under the hardware overlap model; exact byte overlap of tiled strided footprints")
-    from .shared import none_skip_lint
+    from .shared import none_skip_lint, operand_stem_lint
+
+    if operand_stem_lint(repo, rep, "C04-f", ["register_command_stream_util", "register_command_stream_generator", "high_level_command_to_npu_op"]) < 8:
+        raise AnalysisError("operand-named call arguments not found")
+    # the SHRAM / LUT guard of calc_blockdep decides before any return that allows overlap
+    from ..cfg import cfg_of as _cfg
+
+    cbf = repo.mod(UTIL).func("calc_blockdep")
+    cg_ = _cfg(cbf)
+    gtests = cg_.nodes_where(lambda n_: n_.kind == "test" and "prev_uses_lut" in str(norm(n_.expr)))
+    rets = [n_ for n_ in cg_.nodes[3:] if n_.stmt is not None and isinstance(n_.stmt, ast.Return) and not (isinstance(n_.stmt.value, ast.Constant) and n_.stmt.value.value == 0)]
+    if len(gtests) != 1 or not rets:
+        raise AnalysisError("calc_blockdep: LUT guard / returns not recognised")
+    for r_ in rets:
+        rep.check(cg_.dominates(gtests[0], r_.id), "C04-e", f"{UFILE}:calc_blockdep", f"`{str(norm(r_.stmt))[:50]}` (overlap allowed) is only reached after the SHRAM / LUT guard",
+                  "a return that allows overlap precedes the guard: after a LUT kernel on a 16-bank part the next kernel may start writing the LUT banks while they are still read")
 
     none_skip_lint(repo, rep, "C04-f'", ['register_command_stream_util', 'register_command_stream_generator', 'range_set'])
     rep.assume("Python asserts are enabled")
@@ -46,6 +61,9 @@ def run(repo, rep):
     from . import c14
 
     rep.run_borrowed(c14, {'C14-a': "C04-c'"}, repo)
+    from . import c15
+
+    rep.run_borrowed(c15, {"C15-e": "C04-f"}, repo, only_sites=("architecture_features", "register_command_stream_util"))
 
 
 # ------------------------------------------------------------------ a
